@@ -567,6 +567,18 @@ class FileHashStore(HashStore):
                     self.fhs_logger.debug("Attempting to tag object for pid: %s", pid)
                     cid = object_metadata.cid
                     self.tag_object(pid, cid)
+                    # A concurrent delete may have removed the data object after it was found
+                    # or stored above and before it was tagged. It is referenced now (nothing
+                    # can remove it any more), so store the data again.
+                    if not self._exists("objects", cid):
+                        self._store_and_validate_data(
+                            pid,
+                            data,
+                            additional_algorithm=additional_algorithm_checked,
+                            checksum=checksum,
+                            checksum_algorithm=checksum_algorithm_checked,
+                            file_size_to_validate=expected_object_size,
+                        )
                     self.fhs_logger.info("Successfully stored object for pid: %s", pid)
                 finally:
                     # Release pid
